@@ -3,6 +3,7 @@ CONSTANTS N = 5
   Start = 1
   MaxCrashes = 2
   Variant = "asis"
+  RepairAtStart = TRUE
   AllowMissing = FALSE
 INVARIANTS TypeOK NeverFails VersionLast Completion Idempotent
 PROPERTY FinMonotone
